@@ -7,7 +7,12 @@ whose serialisation raises, at every position); after each run the target is cla
 (absent | unreadable | old | new | partial), the sibling paths and the temporary directory are
 snapshotted, and both are compared with `run k` of the Coq model of the protocol.
 The oracle is the classification itself: `partial` = violation; a modified pre-existing target in
-mode 'w' = violation; any other path changed / temp left behind = violation."""
+mode 'w' = violation; any other path changed / temp left behind = violation.
+Round 5: every position is faulted ONE-SHOT and PERSISTENTLY (every later call at the same site fails too), before
+the event and -- for the zarr mutators -- inside it (the store's own key operations), with OSError(errno) for the
+usual errnos, RuntimeError, MemoryError; a fault that the library overcomes (complete new object in place) is
+compared with the uninterrupted run of the model (coq/model/C08_Model_Retry.v: retry_run, C08_retry_absorbs,
+C08_retry_persistent_still_fails, C08_swallowing_retry_refuted)."""
 from __future__ import annotations
 
 import json
@@ -465,6 +470,14 @@ def fault_key(store, kind):
 
 
 # ------------------------------------------------------------------------------------------ comparison
+def fault_text(obs, kind):
+    ev = obs.get("event")
+    return "%s fault %s %s event #%s (%s)%s, raised %s time(s), that write was %s afterwards" % (
+        "PERSISTENT" if obs.get("persist") else "one-shot", obs.get("exc"),
+        "inside (store operation %s of)" % obs["deep"] if obs.get("deep") is not None else "before", obs.get("j"), kind,
+        " %s" % (ev[1:3],) if ev else "", obs.get("hits"), "completed" if obs.get("overcome") else "NEVER completed")
+
+
 def oracle(job, obs, kind, handler_fault=None, judge_partial=True):
     """the property text, on what the implementation left behind; returns [(key, what)]"""
     bad = []
@@ -480,9 +493,15 @@ def oracle(job, obs, kind, handler_fault=None, judge_partial=True):
                         "missing" if i >= lay["exist"] else ("holds " + "+".join(lay["extras"][i]) if lay["extras"][i] else "empty"))
             for i in range(len(lay["chain"]))))
     if obs["class"] == "partial" and judge_partial:
-        bad.append((fault_key(job["store"], kind),
-                    "after a failed save (%s; fault %s) load(target) returns a PARTIAL object: %s"
-                    % (where, kind, obs["detail"])))
+        if obs.get("fired") and obs["outcome"] == "done":
+            # a write FAILED (the injected fault fired) and save() nevertheless returned and committed the target
+            bad.append(("failed-write-swallowed/%s/fault-at-%s" % (job["store"], {"pure": "w"}.get(kind, kind)),
+                        "save() RETURNED NORMALLY although a write failed (%s; %s) and load(target) returns a PARTIAL "
+                        "object: %s" % (where, fault_text(obs, kind), obs["detail"])))
+        else:
+            bad.append((fault_key(job["store"], kind),
+                        "after a failed save (%s; fault %s%s) load(target) returns a PARTIAL object: %s"
+                        % (where, kind, "; " + fault_text(obs, kind) if obs.get("fired") else "", obs["detail"])))
     # write-once is judged for a pre-existing file or directory (the property's quantifier); a dangling
     # symbolic link does not "exist" for os.path.exists and is outside it
     if job["mode"] == "w" and eff_pre(job) not in PRE_ABSENT and not obs["target_unmodified"]:
@@ -761,12 +780,24 @@ def check_results(ctx: Ctx, jobs, results):
             ctx.dist("fault_at/%s" % kind)
             ctx.dist("class/%s" % f["class"])
             ctx.dist("exc/%s" % f["exc"])
+            if j is not None and not hf:
+                ctx.dist("fault_kind/%s" % ("persistent" if f.get("persist") else "one-shot"))
+                ctx.dist("fault_site/%s" % ("store-key-operation-inside-the-event" if f.get("deep") is not None
+                                            else "before-the-event:" + clean["events"][j][1]))
+                if f.get("persist"):
+                    ctx.dist("persistent_fault_hits/%s" % min(f.get("hits", 0), 5))
+                f["event"] = clean["events"][j]
             if hf:
                 ctx.dist("handler_fault/%s%s" % (hf, "" if f["hfired"] else "/handler-not-reached"))
-            ctx.count((job["kind"], json.dumps(job["spec"]), cfg, json.dumps(job.get("naming")), j, hf, f.get("removed")), nontrivial=True)
+            ctx.count((job["kind"], json.dumps(job["spec"]), cfg, json.dumps(job.get("naming")), j, hf, f.get("removed"),
+                       bool(f.get("persist")), f.get("deep")), nontrivial=True)
             ctx.cov["traces_validated_against_impl"] += 1
             extra = {"inject_at": j, "exc": f["exc"], "event": clean["events"][j] if j is not None else None,
-                     "handler_fault": hf, "inside_remove": f.get("removed")}
+                     "handler_fault": hf, "inside_remove": f.get("removed"), "persist": bool(f.get("persist")),
+                     "deep": f.get("deep")}
+            if j is not None and f.get("deep") is not None and not f["fired"]:
+                ctx.dist("deep/store-operation-not-reached")     # the store operation was not issued this time
+                continue
             before = oracle_failed_here
             oracle_failed_here = False
             report_oracle(f, kind, extra, handler_fault=hf, judge_partial=job["kind"] != "rmfault")
@@ -805,7 +836,14 @@ def check_results(ctx: Ctx, jobs, results):
                     ctx.violation("fault-outcome-correspondence", "fault before the existence check changed the target (%s)" % cfg,
                                   {**base_replay, **extra, "impl": f}, found_input=this_failed)
                 continue
-            if j is None:
+            absorbed = (j is not None and not hf and f["fired"] and f["outcome"] == "done" and f["class"] == "new"
+                        and not this_failed)
+            if absorbed:
+                # the failed write was repeated (or was not needed) and the COMPLETE new object is in place: allowed by
+                # the text ("never ... silently missing attributes"); the model: retry_run of a fault plan that does not
+                # exhaust the attempts = the run without fault (C08_retry_one_shot_absorbed)
+                ctx.dist("fault_absorbed/%s" % ("the-same-write-was-repeated-and-completed" if f.get("overcome") else "otherwise"))
+            if j is None or absorbed:
                 k = k_end                       # no primary fault: the save runs to its end (then the handler fails)
             else:
                 s = sum(1 for e in clean["events"][:j] if e[0] in _state_kinds())
@@ -955,7 +993,19 @@ def run(ctx: Ctx):
         "to the target; x both stores x both modes x {no target, earlier archive, earlier directory, other file} x every "
         "fault position or an unserialisable attribute; judged: every path that existed before the save (directories "
         "included) exists unchanged afterwards, whether the save succeeded or failed; the directories a save creates are "
-        "compared with the model's os.makedirs (tree_run)")
+        "compared with the model's os.makedirs (tree_run).  Round 5 adds (g) the KIND of the fault: at every position j of "
+        "every enumerated trace, besides the one-shot fault (the call at j fails once), a PERSISTENT fault (the call at j "
+        "and every later call at the same site = (primitive, zarr path of the group / array / attribute owner, item "
+        "name) fails: repeating the write does not help), and for the zarr mutators a fault raised INSIDE the event by "
+        "one of the store's own key operations (LocalStore.set / set_if_not_exists / delete / delete_dir; one-shot or "
+        "persistent on that key); exception classes: OSError without errno, OSError(errno) for EIO ENOSPC EACCES ESTALE "
+        "EAGAIN EINTR EBUSY ETIMEDOUT (raised as the built-in class the errno maps to), RuntimeError, MemoryError, and "
+        "for one-shot faults before an event KeyboardInterrupt / SystemExit / GeneratorExit / a bare BaseException "
+        "subclass; the tracer records how often the fault fired and whether the SAME write was completed later; judged "
+        "by the same clause: after a save in which a write failed the target is absent / unreadable / the complete "
+        "earlier object, or the COMPLETE new object (a fault that a retry overcomes is not reported: compared with the "
+        "model's uninterrupted run, C08_retry_absorbs); a save that returns normally and leaves a partial object is "
+        "reported under failed-write-swallowed/<store>/fault-at-<kind>")
     ctx.assumptions += [
         "a fault is an exception raised between Python-level effects (before a hooked primitive runs), inside a "
         "clean-up handler, or part-way through shutil.rmtree of the old target; OS crashes, fsync and rename "
@@ -966,6 +1016,12 @@ def run(ctx: Ctx):
         "is computed by the harness before the model's `resolve` is applied",
         "zarr LocalStore writes each key atomically (temp + replace) and os.replace within one directory is atomic",
         "load() is a deterministic function of the bytes of the target",
+        "a fault raised by a store key operation inside a zarr mutator is reported after the key operations zarr issued "
+        "concurrently beside it have finished (deterministic schedule); the schedule in which a sibling key write outlives "
+        "the failing one and lands after save() has cleaned up (zarr gathers them over worker threads that cannot be "
+        "cancelled) is not driven",
+        "a persistent fault is persistent per SITE (primitive, zarr path, item name); a library that works around a failing "
+        "site by writing somewhere else is judged by what load(target) returns",
     ]
     ctx.cov["trusted_base"] += [
         "Coq 8.16.1 kernel incl. vm_compute (used to run the model); no native_compute; no axioms",
@@ -1069,6 +1125,7 @@ def replay(ctx: Ctx, path):
            "spec": rp["spec"], "old_spec": rp.get("old_spec"), "store": rp["store"], "path_form": rp.get("path_form", "exact"), "mode": rp["mode"], "pre": rp["pre"],
            "inject_at": rp.get("inject_at"), "exc": rp.get("exc") or "os", "naming": rp.get("naming"), "valid": rp.get("valid", True),
            "handler_fault": rp.get("handler_fault"), "inside_remove": rp.get("inside_remove"), "imm_root": str(ctx.dir / "imm"),
+           "persist": bool(rp.get("persist")), "deep": rp.get("deep"),
            "n_positions": 6, "layout": rp.get("layout")}
     scratch = tempfile.mkdtemp(prefix="verif_c08_replay_")
     try:
@@ -1084,6 +1141,8 @@ def replay(ctx: Ctx, path):
     else:
         obs = [("none", res["clean"], None)] if job["kind"] in ("enum", "names") else []
         for f in res.get("faults", []):
+            if f.get("j") is not None:
+                f["event"] = res["clean"]["events"][f["j"]]
             obs.append((res["clean"]["events"][f["j"]][0] if f.get("j") is not None else "none", f, rp.get("handler_fault")))
     if job.get("naming"):
         nm = job["naming"]
@@ -1093,6 +1152,8 @@ def replay(ctx: Ctx, path):
         print("fault at: %-8s outcome=%-8s class=%-10s target_unmodified=%s siblings_changed=%s temp_leftovers=%s %s" % (
             kind if o.get("j") is None else "%s#%d" % (kind, o["j"]), o["outcome"], o["class"], o["target_unmodified"],
             o["siblings_changed"], o["temp_leftovers"], o["detail"]))
+        if o.get("j") is not None:
+            print("          " + fault_text(o, kind))
         bad += oracle(job, o, kind, handler_fault=hf, judge_partial=not rp.get("inside_remove"))
     if job["kind"] != "natural" and not job.get("naming"):
         sk = res["clean"]["state_kinds"]
